@@ -107,12 +107,15 @@ def _gens(tier):
                                         kind0="uninit")),
         ("G-init", pconsts(depth=2, kinds=("push", "init"), dur=8, kind0="none", vals_a=(3,), durset=(8,))),
         ("G-init-param", pconsts(depth=2, kinds=("push", "init"), dur=8, kind0="uninit", param=True, vals_a=(3,), durset=(8,))),
-        ("G-final", fconsts(depth=3 if q else 4)),
     ]
+    # the finaliser graph comes FIRST: its replay calls gc.collect() after every operation, whose cost grows with
+    # the number of live objects (the parsed outcome tables of the larger graphs are millions of them)
+    g.insert(0, ("G-final", fconsts(depth=3 if q else 4)))
     if not q:
         g += [("G-n1-none", pconsts(depth=4, kinds=CK, dur=0, kind0="none")),
               ("G-n1-tmp", pconsts(depth=4, kinds=CK, dur=0, ptmp=True)),
-              ("G-final-3", fconsts(depth=3, names=("p", "q", "r")))]
+              ]
+        g.insert(1, ("G-final-3", fconsts(depth=3, names=("p", "q", "r"))))
     return g
 
 
@@ -223,8 +226,8 @@ def run_record_persist(chk: Check, tier: str, rng: random.Random):
                 raise MachineryFailure(f"emitted graph {name} has {len(g.states)} states, TLC reports {res.distinct}")
             g.name = name
             chk.add_tlc("rp-gen:" + name, res)
-            replay_graph(chk, g, c, budget=(6000 if quick else None), rng=rng, tick=rng.choice([0.25, 0.5, 0.125]))
-            if first is None:
+            replay_graph(chk, g, c, budget=(3000 if quick else None), rng=rng, tick=rng.choice([0.25, 0.5, 0.125]))
+            if first is None and c["Mode"] == "persist":
                 first = (g, c)
                 # canary: a replay that reports a different pointer after every accepted load must be flagged
                 def deviate(op, ret, st):
